@@ -30,4 +30,22 @@ PROPS = {
     },
 }
 
+PROPS['C17'] = {
+    'group': 'containers',
+    'level': 'proof',
+    'explanation': 'Theorems about the model of _sort_custom for ALL lists and key strings: result is a permutation; the passes are stable and the '
+                   'result is lexicographically ordered with the last key most significant (C17_lex_stable); error/undefined elements come last '
+                   '(first when reversed) for every sort definition (C17_errors_last); the key grammar is decided on the regenerated pattern '
+                   '(C17_keys, C17_no_var_rejected; the un-anchored search is refuted and listed as a known finding). Tied to containers.py by the '
+                   'regenerated key pattern/table + differential execution + an independent oracle on the real code.',
+}
+PROPS['C18'] = {
+    'group': 'containers',
+    'level': 'proof',
+    'explanation': 'Theorems for ALL lists: filter/_new_list_from_self returns exactly List.filter and (drop) leaves exactly the others in order; '
+                   'filter_duplicates selects exactly the elements with an earlier equal instance/derived key; group_by puts every element in exactly '
+                   'one group keyed by its value, order kept, unpack_group is a permutation; construction either converts every element in order or '
+                   'raises TypeError. Tied to containers.py by differential execution + an independent oracle on the real code.',
+}
+
 NOT_CLAIMED = {}
